@@ -458,3 +458,28 @@ def _vector_raw(start: int, vlen: int, nblocks: int, got_len: int, nsub: int, su
     if vlen < 1 or nblocks != 1 or got_len != vlen: return False
     ok_shape = out.shape in ((vlen,), (vlen, nsub)) and (out.shape == (vlen,) or nsub > 1 or sub is None)
     return calls == [(start, start + vlen - 1, 'ch', sub)] and out.tag == 'z' and ok_shape and out.shape[0] == vlen
+
+
+# ----------------------------------------------------------------------------- C20: the RF reader hands out non-destructive metadata readers
+
+def _get_dmd_default(found: bool) -> bool:
+    """
+    post: _
+    """
+    # DigitalRFReader.get_digital_metadata constructs the metadata reader in its non-destructive mode (accept_empty left True)
+    made = []
+    class DM:
+        class DigitalMetadataReader:
+            def __init__(self, d, accept_empty=True): made.append((d, accept_empty))
+    r = H.DigitalRFReader.__new__(H.DigitalRFReader)
+    r._channel_metadata_reader = {}; r._top_level_dir_dict = {'/top': None}
+    old = (H.digital_metadata, H.os.access)
+    H.digital_metadata = DM; H.os.access = lambda p, m: found
+    try:
+        try:
+            r.get_digital_metadata('ch')
+        except IOError:
+            return not found and made == []
+    finally:
+        H.digital_metadata, H.os.access = old
+    return found and made == [('/top/ch/metadata', True)]
